@@ -67,7 +67,30 @@ class W:
 def world(name, n):
     if (name, n) not in _W:
         _W[(name, n)] = W(name, n)
+        use_smaller_problem_first(_W[(name, n)])
     return _W[(name, n)]
+
+
+def use_smaller_problem_first(w):
+    """Before a world is used: the same domain object steps every two-member joint action in a problem of the same
+    name with FEWER objects (item i2 missing).  Nothing kept from those calls may decide anything later."""
+    import re
+    from pddl_plus_parser.models import ActionCall
+    from pddl_plus_parser.multi_agent.common import apply_actions, create_initial_state
+    small = w.ptext.replace("i1 i2 - item", "i1 - item")
+    small = re.sub(r"\([a-z]+( [a-z0-9]+)* i2\)", "", small)
+    if small == w.ptext:
+        return
+    try:
+        prob = parse_problem(small, w.D)
+        s0 = create_initial_state(prob)
+        for a, b in product(w.per[w.agents[0]], w.per[w.agents[1]]):
+            if "i2" in a[1] or "i2" in b[1]:
+                continue
+            guard(lambda: apply_actions(w.D, s0, [ActionCall(a[0], list(a[1])), ActionCall(b[0], list(b[1]))],
+                                        allow_inapplicable_actions=True, problem_objects=prob.objects))
+    except Exception:  # noqa: the smaller problem is only there to be remembered wrongly
+        pass
 
 
 def joint_universe(w, members, max_states=256):
@@ -195,9 +218,12 @@ def check_trajectory(r, case):
     w = world(case["domain"], case["agents"])
     r.nontrivial = True
 
+    # an action without parameters names no agent: it is written into the first agent's slot, as `(name)` and `(name )`
+    zero = [(a.name, ()) for a in w.S.actions.values() if not a.params]
+
     def steps(st):
         out = []
-        for joint in product(*[[None] + w.per[a] for a in w.agents]):
+        for joint in product(*[[None] + w.per[a] + (zero if i == 0 else []) for i, a in enumerate(w.agents)]):
             members = [c for c in joint if c is not None]
             if not members:
                 out.append((joint, st))  # every agent idles: a step of its own that changes nothing
@@ -211,16 +237,20 @@ def check_trajectory(r, case):
                 pass
         return out
 
-    def render(j):
-        return "[" + ",".join("(nop )" if c is None else "(" + " ".join((c[0],) + tuple(c[1])) + ")" for c in j) + "]"
+    def render(j, pad=""):
+        return "[" + ",".join("(nop )" if c is None else "(" + " ".join((c[0],) + tuple(c[1])) + (pad if not c[1] else "") + ")"
+                              for c in j) + "]"
     s0 = w.RP.state()
     plans = []
     for j1, s1 in steps(s0):
         plans.append(([j1], [s0, s1]))
         for j2, s2 in steps(s1):
             plans.append(([j1, j2], [s0, s1, s2]))
-    for plan, states in plans:
-        lines = [render(j) for j in plan]
+    # a state in which the parameterless action is applicable, reached in one step
+    variants = [(p, st, "") for p, st in plans]
+    variants += [(p, st, " ") for p, st in plans if any(c is not None and not c[1] for j in p for c in j)]
+    for plan, states, pad in variants:
+        lines = [render(j, pad) for j in plan]
         exp = w.__dict__.setdefault("_ma_exporter", MultiAgentTrajectoryExporter(w.D))  # one exporter for all plans
         tr = guard(lambda: exp.parse_plan(parse_problem(w.ptext, w.D), action_sequence=list(lines)))
         r.count("histories")
